@@ -2,6 +2,7 @@
    known_findings.txt): the theorems below are the machine-checked form of the finding on the faithful model -- the
    signature proof embeds Cv = {value, randomness} with value = v * g_0^randomness mod N, so v is recomputable. *)
 From ZK Require Import Cl ClArith ClSig ClMore.
+From ZK Require Import ClTies.
 
 Theorem C17_spok_carries_opening_of_v :
   forall CS sg ck pk bases msgs U ds p ds',
@@ -26,3 +27,20 @@ Check (C17_commit_v_opens :
   exists g0 gw, nthZ (ck_g ck) 0 = Ok g0 /\ pow_mod g0 (c_rand c) (ck_N ck) = Ok gw /\
     c_value c = Z.rem (v * gw) (ck_N ck)).
 Print Assumptions C17_commit_v_opens.
+
+(* finding F16 on the faithful model: the first response of every same-secret sub-proof of a range proof, divided by the public
+   challenge, is the secret it answers for up to (2^(l+t) b - 1) / challenge -- with the 256-bit challenge of the code, the secret itself *)
+Theorem C17_same_secret_response_pins_x :
+  forall BP x r1 r2 g1 h1 g2 h2 b n ds p ds',
+  Forall int_ok ds ->
+  proof_same_secret BP x r1 r2 g1 h1 g2 h2 b n ds = Ok (p, ds') ->
+  (0 < ss_chal p)%Z ->
+  (x <= ss_d p / ss_chal p <= x + (two (b_l BP + b_t BP) * b - 1) / ss_chal p)%Z.
+Proof. exact same_secret_response_pins_x. Qed.
+Check (C17_same_secret_response_pins_x :
+  forall BP x r1 r2 g1 h1 g2 h2 b n ds p ds',
+  Forall int_ok ds ->
+  proof_same_secret BP x r1 r2 g1 h1 g2 h2 b n ds = Ok (p, ds') ->
+  (0 < ss_chal p)%Z ->
+  (x <= ss_d p / ss_chal p <= x + (two (b_l BP + b_t BP) * b - 1) / ss_chal p)%Z).
+Print Assumptions C17_same_secret_response_pins_x.
